@@ -579,14 +579,14 @@ func checkResponse(rq *qrequest, data []byte, pre [][]byte) string {
 	b := rq.behav
 	switch b.Op {
 	case "model":
-		if rq.ev.typ == "collection" || b.V.Unmarshalable() {
+		if rq.ev.typ == "collection" || b.V.Unmarshalable() || b.V.MarshalPanics() {
 			return wantErr(res.CodeInternalError)
 		}
 		if p.Result == nil || !gen.JSONEqual(p.Result.Model, b.V.Wire()) {
 			return want("model " + string(b.V.Wire()))
 		}
 	case "collection":
-		if rq.ev.typ == "model" || b.V.Unmarshalable() {
+		if rq.ev.typ == "model" || b.V.Unmarshalable() || b.V.MarshalPanics() {
 			return wantErr(res.CodeInternalError)
 		}
 		if p.Result == nil || !gen.JSONEqual(p.Result.Collection, b.V.Wire()) {
@@ -644,13 +644,13 @@ func genBehav(t *rapid.T) QBehav {
 	case "model":
 		v := gen.Val{Kind: "json", JSON: rapid.SampledFrom([]string{`{"a":1}`, `{}`, `{"x":{"rid":"svc.q.1"},"s":"é\"\\"}`}).Draw(t, "model")}
 		if rapid.IntRange(0, 9).Draw(t, "unm") == 0 {
-			v = gen.Val{Kind: "chan"}
+			v = gen.Val{Kind: rapid.SampledFrom([]string{"chan", "marshalpanic"}).Draw(t, "unmkind")} // cannot be encoded: an error, or a panic inside MarshalJSON
 		}
 		b.V = &v
 	case "collection":
 		v := gen.Val{Kind: "json", JSON: rapid.SampledFrom([]string{`[]`, `[1,"a",{"rid":"svc.q.2"}]`, `[null]`}).Draw(t, "coll")}
 		if rapid.IntRange(0, 9).Draw(t, "unm") == 0 {
-			v = gen.Val{Kind: "func"}
+			v = gen.Val{Kind: rapid.SampledFrom([]string{"func", "marshalpanic"}).Draw(t, "unmkind")}
 		}
 		b.V = &v
 	case "events", "timeoutreply", "eventsnotfound", "eventspanic", "replytimeout":
